@@ -7,7 +7,8 @@ error, failing initialisers, consumer behaviour) is symbolic as well.
 """
 import z3
 
-W = 8  # all state variables are small: 8-bit signed bit-vectors (pure SAT problem)
+W = 5  # counters, tokens, registers: 5-bit signed bit-vectors (-16..15); program counters: 8 bits
+WPC = 8
 
 
 def IV(x):
@@ -38,10 +39,10 @@ class Model:
         self.scen = z3.And(self.K >= 0, self.K <= KMAX, self.DIFAIL >= -1, self.DIFAIL <= QL + 1)
         self.end_states = []
         for tid, (role, A, j) in enumerate(self.auts):
-            ends = {d for (s, l, d) in A.edges if l[0] == "end"}
+            ends = {d for (s, l, d) in A.edges if l[-1][0] == "end"}
             self.end_states.append(ends)
-        self.main_end_ok = {d for (s, l, d) in main.edges if l[0] == "end" and l[1].startswith("Ok")}
-        self.main_end_err = {d for (s, l, d) in main.edges if l[0] == "end" and l[1].startswith("Err")}
+        self.main_end_ok = {d for (s, l, d) in main.edges if l[-1][0] == "end" and l[-1][1].startswith("Ok")}
+        self.main_end_err = {d for (s, l, d) in main.edges if l[-1][0] == "end" and l[-1][1].startswith("Err")}
 
     # ---------------------------------------------------------------------------------------
     def state(self, t):
@@ -49,7 +50,7 @@ class Model:
         I = lambda n: z3.BitVec("%s@%d" % (n, t), W)
         B = lambda n: z3.Bool("%s@%d" % (n, t))
         for tid in range(len(self.auts)):
-            S["pc%d" % tid] = I("pc%d" % tid)
+            S["pc%d" % tid] = z3.BitVec("pc%d@%d" % (tid, t), WPC)
         for j in range(self.NJ):
             S["jst%d" % j] = I("jst%d" % j)
         S["qE_len"] = I("qE_len")
@@ -118,23 +119,38 @@ class Model:
         return z3.And(m, r, self.alljobsdone(S))
 
     # one edge: (guard, updates) --------------------------------------------------------------
-    def edge_sem(self, S, ei):
-        tid, src, lab, dst = self.edges[ei]
+    def edge_sem(self, S0, ei):
+        """guard and updates of one automaton edge = a sequence of primitive actions executed atomically"""
+        tid, src, labs, dst = self.edges[ei]
         role, A, jslot = self.auts[tid]
-        g = [S["pc%d" % tid] == src, z3.Not(S["panic"])]
-        u = {"pc%d" % tid: IV(dst)}
-        R = lambda r: S["R%d:%s" % (tid, r)]
-        QL = self.QL
+        g = [S0["pc%d" % tid] == src, z3.Not(S0["panic"])]
+        cur = dict(S0)
+        tot = {"pc%d" % tid: z3.BitVecVal(dst, WPC)}
         if role == "reader":
-            g.append(S["spawned"] == 1)
+            g.append(S0["spawned"] == 1)
         if role == "job":
-            js = S["jst%d" % jslot]
+            js = S0["jst%d" % jslot]
             if src == A.init:
-                earlier = [S["jst%d" % i] != 1 for i in range(jslot)]
-                g += [js == 1, self.running(S) < self.NTHR] + earlier
-                u["jst%d" % jslot] = IV(2)
+                earlier = [S0["jst%d" % i] != 1 for i in range(jslot)]
+                g += [js == 1, self.running(S0) < self.NTHR] + earlier
+                tot["jst%d" % jslot] = IV(2)
+                cur["jst%d" % jslot] = IV(2)
             else:
                 g.append(js == 2)
+        for lab in labs:
+            gi, ui = self.prim_sem(cur, tid, lab)
+            g += gi
+            cur.update(ui)
+            tot.update(ui)
+        tot["pc%d" % tid] = z3.BitVecVal(dst, WPC)
+        return z3.And(g), tot
+
+    def prim_sem(self, S, tid, lab):
+        role, A, jslot = self.auts[tid]
+        g = []
+        u = {}
+        R = lambda r: S["R%d:%s" % (tid, r)]
+        QL = self.QL
         a = lab[0]
         if a == "tau":
             pass
@@ -271,7 +287,7 @@ class Model:
             u["sawnone"] = z3.BoolVal(True)
         else:
             raise Exception("no semantics for action %r" % (lab,))
-        return z3.And(g), u
+        return g, u
 
     def step(self, S, S2, sel):
         guards = []
